@@ -218,7 +218,7 @@ prop("C12", [_lazy("layout", "rule_lay1"), _lazy("layout", "rule_lay2"), _lazy("
      "graphs (run-time graph shape)")
 
 prop("C01", [_lazy("infer", "rule_opt"), _lazy("infer", "rule_opt2"), _lazy("infer", "rule_opt3"), _lazy("infer", "rule_drop1"),
-             _lazy("emit", "rule_dup1"), _lazy("emit", "rule_sib1"), _lazy("infer", "rule_eq1")],
+             _lazy("emit", "rule_dup1"), _lazy("emit", "rule_sib1"), _lazy("infer", "rule_eq1"), _lazy("infer", "rule_samples1")],
      "Static decision of the optionality / completeness clauses of C01: on every feasible path of the per-field merge "
      "loop (path enumeration with the equality axioms of EQ-1/NF-3) the value left in the merged set is optional "
      "whenever the stored or the incoming side was optional or the field is new in a later set, and the stored type "
@@ -241,7 +241,8 @@ prop("C02", [_lazy("infer", "rule_opt"), _lazy("infer", "rule_nulldet"), _lazy("
      "that a union member / literal / element type at a position was exhibited by a sample routed there (needs the "
      "samples)")
 
-prop("C07", [_lazy("infer", "rule_opt"), _lazy("infer", "rule_eq1"), _lazy("emit", "rule_lim")],
+prop("C07", [_lazy("infer", "rule_opt"), _lazy("infer", "rule_eq1"), _lazy("emit", "rule_lim"), _lazy("infer", "rule_opt3"),
+             _lazy("infer", "rule_samples1"), _lazy("registry", "rule_cmp1"), _lazy("registry", "rule_cmp2")],
      "Static decision of: the merge outcome's optionality is the same for mirrored inputs and the stored side is kept "
      "only on equality (OPT-5 on the OPT path table); equality of IR types is type-exact and order-insensitive "
      "(ComplexType compares the sorted MEMBER lists, StringLiteral compares sets) and caches are invalidated on "
